@@ -78,7 +78,30 @@ def _parse(out_json, stdout, names):
     return res
 
 
-def run_kani(harnesses, jobs=16, harness_timeout=900, extra_args=None, use_cache=True, tag="run"):
+MEM_CAP_KB = int(os.environ.get("VERIF_CBMC_MEM_GB", "14")) * 1000 * 1000
+
+
+def _watchdog(stop):
+    """Kill any single cbmc process whose RSS exceeds the cap (it would otherwise take the machine down);
+    the harness then has no verdict and is reported as undecided (never as a violation)."""
+    import subprocess
+    import time as _t
+    while not stop.is_set():
+        try:
+            out = subprocess.run(["ps", "-eo", "pid,rss,comm"], capture_output=True, text=True).stdout
+            for ln in out.split("\n")[1:]:
+                f = ln.split()
+                if len(f) == 3 and f[2] == "cbmc" and int(f[1]) > MEM_CAP_KB:
+                    try:
+                        os.kill(int(f[0]), 9)
+                    except OSError:
+                        pass
+        except Exception:
+            pass
+        _t.sleep(2)
+
+
+def run_kani(harnesses, jobs=8, harness_timeout=900, extra_args=None, use_cache=True, tag="run"):
     """harnesses: list of harness paths relative to the in-crate module, e.g. 'h_kernel::k_bump_up'.
     Returns {name: result}.  result['status'] in Success | Failure | Timeout | BuildError | Missing."""
     ensure_dirs()
@@ -107,7 +130,14 @@ def run_kani(harnesses, jobs=16, harness_timeout=900, extra_args=None, use_cache
     if extra_args:
         cmd += extra_args
     total_timeout = harness_timeout * (1 + (len(todo) - 1) // max(1, jobs)) + 900
-    rc, out, err, wall, to = run(cmd, cwd=REPO, env=ENV, timeout=total_timeout)
+    import threading
+    stop = threading.Event()
+    th = threading.Thread(target=_watchdog, args=(stop,), daemon=True)
+    th.start()
+    try:
+        rc, out, err, wall, to = run(cmd, cwd=REPO, env=ENV, timeout=total_timeout)
+    finally:
+        stop.set()
     text = out + "\n" + err
     parsed = _parse(out_json, text, [MOD_PREFIX + h for h in todo]) if os.path.exists(out_json) else None
     build_failed = ("error: could not compile" in text) or ("error[E" in text and "Checking harness" not in text)
